@@ -8,6 +8,8 @@ def cname(m, s):
 
 class Gen:
     def __init__(self, spec, variant='functor'):
+        import copy
+        spec = copy.deepcopy(spec)       # Index annotates in place; never disturb the caller's (family specific) view
         self.spec = spec
         self.ix = Index(spec)
         self.variant = variant
